@@ -6,7 +6,7 @@ use crate::asm::*;
 use crate::core::*;
 use crate::disk::*;
 use crate::model::*;
-use crate::monitor::{ForceHalt, InputTweak, ShortCircuit, TxCtx};
+use crate::monitor::{ForceHalt, InputTweak, ShortCircuit, SkipFrame, TxCtx};
 use crate::sys::*;
 use crate::world::*;
 use alloy_primitives::U512;
@@ -28,6 +28,9 @@ pub struct TxOp {
     /// F3c: the inspector lowers the gas limit of a frame inside its hook
     #[serde(default)]
     pub input_tweak: Option<InputTweak>,
+    /// F3e: the inspector skips the execution of an inner frame from initialize_interp
+    #[serde(default)]
+    pub skip_frame: Option<SkipFrame>,
     /// use transact_commit (true) or transact + explicit commit (false)
     #[serde(default)]
     pub via_commit: bool,
@@ -172,7 +175,8 @@ impl Engine for TxSim {
                 None
             };
             let input_tweak = if self.focus != "C07" && rng.chance(1, 8) { Some(InputTweak { hook_no: rng.range(1, 6), gas_frac: rng.below(257) as u16 }) } else { None };
-            ops.push(TxOp { tx, faults, short_circuits, force_halt, input_tweak, via_commit: rng.chance(1, 4), probe_expect: None, coinbase });
+            let skip_frame = if self.focus != "C07" && rng.chance(1, 8) { Some(SkipFrame { hook_no: rng.range(1, 6), result: rng.pick(&["stop", "revert", "halt"]).to_string() }) } else { None };
+            ops.push(TxOp { tx, faults, short_circuits, force_halt, input_tweak, skip_frame, via_commit: rng.chance(1, 4), probe_expect: None, coinbase });
         }
         if self.focus == "C07" {
             // driver: sibling calls/creates with bounded gas, then the depth prober
@@ -223,7 +227,7 @@ impl Engine for TxSim {
             tx.gas_price = world.block.basefee;
             // the sender must afford gas_limit * price: use price = basefee and give it funds
             world.disk.accounts.get_mut(&world.eoas[0]).unwrap().balance = U256::MAX >> 8;
-            ops.push(TxOp { tx, faults: FaultPlan::default(), short_circuits: vec![], force_halt: None, input_tweak: None, via_commit: false, probe_expect: Some(1023), coinbase: None });
+            ops.push(TxOp { tx, faults: FaultPlan::default(), short_circuits: vec![], force_halt: None, input_tweak: None, skip_frame: None, via_commit: false, probe_expect: Some(1023), coinbase: None });
         }
         TxCase { world, ops }
     }
@@ -279,6 +283,11 @@ pub fn shrink_tx_case(case: &TxCase) -> Vec<TxCase> {
         if op.input_tweak.is_some() {
             let mut c = case.clone();
             c.ops[i].input_tweak = None;
+            out.push(c);
+        }
+        if op.skip_frame.is_some() {
+            let mut c = case.clone();
+            c.ops[i].skip_frame = None;
             out.push(c);
         }
         if !op.short_circuits.is_empty() {
@@ -428,6 +437,7 @@ pub fn run_monitor_case(case: &TxCase, stats: &mut Stats, focus: &str) -> Vec<Vi
         sys.monitor().unwrap().begin_tx(ctx, op.short_circuits.clone());
         sys.monitor().unwrap().force_halt = op.force_halt.clone();
         sys.monitor().unwrap().input_tweak = op.input_tweak.clone();
+        sys.monitor().unwrap().skip_frame = op.skip_frame.clone();
         sys.bottom.arm(op.faults.clone());
         let fired_before = sys.bottom.fired();
         // ---- run
